@@ -25,4 +25,12 @@ PROPS = {
     'C09': {'theorems': [], 'eval_keys': ['code_objects'], 'rule': PROGRAM_RULE},
     'C14': {'theorems': [], 'eval_keys': ['code_objects'], 'rule': PROGRAM_RULE},
     'C04': {'theorems': [], 'eval_keys': ['code_objects'], 'rule': 'signature shapes x function kinds x docstring shapes x optimize, plus all scopes of the program corpus'},
+    'C10': {
+        'theorems': ['CDV.Props.C10.C10_bytes', 'CDV.Props.C10.C10_expand_collapse', 'CDV.Props.C10.C10_bytes_rows_roundtrip'],
+        'modules': ['CDVProofs.LineTable', 'CDVProofs.Props.C10'],
+        'eval_keys': ['line_programs', 'real_tables'],
+        'rule': ('abstract line programs (0-8 events, byte deltas and line deltas drawn from and around 127/128, 254/255 and multiples, '
+                 'zero-byte events on <=3.9, no-line events on 3.10) assembled by an independent rendering of assemble_lnotab / assemble_line_range, '
+                 'installed on a real code object; plus every table of the program corpus; distinct = distinct (table, code length)'),
+    },
 }
